@@ -32,7 +32,14 @@ func runPipeTrace(t *Trace, want string, clk *taskClock) (res *Result) {
 			panic(r)
 		}
 	}()
+	writeFed := t.P.Target == "write"
 	px.spec.Target = "wrap"
+	if writeFed {
+		// the caller copies the stream into the parser itself, through one
+		// chunk buffer that it reuses, and parses whatever is buffered
+		px.spec.Target = "direct"
+		dx.probe("write_fed")
+	}
 	px.setup()
 	dx.setup()
 	if t.D.WindowSize == 0 && t.P.WindowSize == 0 {
@@ -55,23 +62,81 @@ func runPipeTrace(t *Trace, want string, clk *taskClock) (res *Result) {
 	var blk lz.Block
 	var src []byte
 	maxIter := len(t.Input) + 16
+	pending := t.Input // write-fed mode: bytes not yet written
+	unparsed, parsesLeft := 0, 0
+	var chunk []byte
 	for i := 0; i < maxIter; i++ {
 		flags := 0
+		var op Op
 		if len(t.Ops) > 0 {
-			flags = t.Ops[i%len(t.Ops)].F
+			op = t.Ops[i%len(t.Ops)]
+			flags = op.F
 		}
 		dx.step = i
 		px.step = i
 		var n int
 		var err error
-		h0 := px.rd.HandedOut()
-		pn, hang := px.call(px.budget(0), func() { n, err = px.wp.Parse(&blk, flags) })
-		if pn != "" {
-			px.libPanic("WParse", pn, hang, "C16")
-		}
-		src = append(src, px.rd.data[h0:px.rd.HandedOut()]...)
-		if err == io.EOF {
-			break
+		if writeFed {
+			if len(pending) > 0 && (unparsed == 0 || parsesLeft == 0) {
+				c := op.N
+				if c < 1 {
+					c = 1
+				}
+				if c > len(pending) {
+					c = len(pending)
+				}
+				if cap(chunk) < c+8 {
+					chunk = make([]byte, 0, c+8)
+				}
+				chunk = append(chunk[:0], pending[:c]...)
+				w := 0
+				pn, hang := px.call(px.budget(c), func() {
+					w, _ = px.parser.Write(chunk)
+					if w < c {
+						px.parser.Shrink()
+						w2, _ := px.parser.Write(chunk[w:])
+						w += w2
+					}
+				})
+				if pn != "" {
+					px.libPanic("Write", pn, hang, "C16")
+				}
+				if w < 0 || w > c {
+					dx.abort("Write returned impossible n")
+				}
+				for j := range chunk {
+					chunk[j] ^= 0x5a
+				}
+				src = append(src, pending[:w]...)
+				pending = pending[w:]
+				unparsed += w
+				parsesLeft = op.X
+				if parsesLeft <= 0 {
+					parsesLeft = 1 << 30
+				}
+			}
+			if unparsed == 0 {
+				if len(pending) == 0 {
+					break
+				}
+				dx.abort("parser takes no data although everything is parsed")
+			}
+			parsesLeft--
+			pn, hang := px.call(px.budget(0), func() { n, err = px.parser.Parse(&blk, flags) })
+			if pn != "" {
+				px.libPanic("Parse", pn, hang, "C16")
+			}
+			unparsed -= n
+		} else {
+			h0 := px.rd.HandedOut()
+			pn, hang := px.call(px.budget(0), func() { n, err = px.wp.Parse(&blk, flags) })
+			if pn != "" {
+				px.libPanic("WParse", pn, hang, "C16")
+			}
+			src = append(src, px.rd.data[h0:px.rd.HandedOut()]...)
+			if err == io.EOF {
+				break
+			}
 		}
 		if err != nil || n <= 0 {
 			dx.abort(fmt.Sprintf("parser returned n=%d err=%v", n, err))
@@ -112,7 +177,11 @@ func runPipeTrace(t *Trace, want string, clk *taskClock) (res *Result) {
 	res.OpsDone = len(res.Obs)
 	dx.step = len(res.Obs)
 	if !bytes.Equal(dx.ref, src) {
-		dx.abort("parser blocks do not expand to the source (C01's business)")
+		// every block was well-formed and accepted, yet the stream does not
+		// stand for the source: C01 names the parser defect, and C07's "has
+		// produced the original bytes" fails with it
+		dx.fail("C07", "sink_differs", "parser_stream_differs", "the accepted well-formed block stream expands to %d bytes, the source has %d (first difference at %d)", len(dx.ref), len(src), firstDiff(dx.ref, src))
+		dx.abort("parser blocks do not expand to the source")
 	}
 	dx.final()
 	if !bytes.Equal(dx.wr.sink, src) {
